@@ -156,21 +156,35 @@ def main():
     known = core.load_known(pid)
     status = 0
 
-    # 1. replay listed known findings (in process: they are plain function calls)
+    # 1. replay listed known findings, each in its own fresh interpreter, all at once (some of them are non-terminating rewrites
+    #    that run into their backstop, so doing this serially would dominate the run)
     known_active = {}
-    for ent in known:
-        if ent.get('status') != 'known':
-            continue
+    os.makedirs(os.path.join(HERE, 'replays', pid), exist_ok=True)
+    procs = []
+    for i, ent in enumerate(e for e in known if e.get('status') == 'known'):
+        path = os.path.join(HERE, 'replays', pid, 'known_{}.json'.format(i))
+        with open(path, 'w') as f:
+            json.dump({'property': pid, 'key': ent['key'], 'what': ent['what'], 'witness': ent['witness']}, f)
+        procs.append((ent, path, subprocess.Popen([os.path.join(HERE, 'check'), pid, '--replay', path, '--quiet'], stdout=subprocess.PIPE, stderr=subprocess.STDOUT, text=True)))
+    for ent, path, p in procs:
         try:
-            obs = core.run_with_alarm(lambda: mod.replay(ent['witness']), 300)
-        except core.HarnessError as e:
-            obs = 'harness: {}'.format(e)
-        if obs is not None:
+            out, _ = p.communicate(timeout=600)
+            rc = p.returncode
+        except subprocess.TimeoutExpired:
+            p.kill()
+            rc = 1
+        if rc == 1:
             print('KNOWN-FINDING: property={} {} [{}]'.format(pid, ent['what'], ent['key']))
-            known_active[ent['key']] = ent
+        elif rc == 0:
+            print('note: listed finding no longer reproduces: {} [{}]'.format(ent['what'][:200], ent['key']))
         else:
-            print('note: listed finding no longer reproduces: {} [{}]'.format(ent['what'], ent['key']))
-            known_active[ent['key']] = ent  # key still suppresses nothing new: a fixed tree produces no such violation
+            print('HARNESS-ERROR replay of known finding {} exited {}'.format(ent['key'], rc), file=sys.stderr)
+            status = 2
+        known_active[ent['key']] = ent   # a listed key suppresses exactly itself; on a repaired tree no such violation is produced
+        try:
+            os.unlink(path)
+        except OSError:
+            pass
 
     # 2. exhaustive exploration, shard by shard
     specs = list(mod.shards(ns.tier, seed))
